@@ -47,9 +47,19 @@ type Dump struct {
 	Rows   map[string]int
 }
 
-// OpenRO opens a plain (unwrapped) connection for observation.
+// WALObserver makes observation connections announce WAL mode the way the
+// daemon's own connections do (a connection that does not run the journal
+// pragma cannot get its first lock on a database other connections hold in
+// WAL mode). Set from the world configuration.
+var WALObserver bool
+
+// OpenRO opens a plain (unwrapped) connection for observation. It never writes.
 func OpenRO(dbfile string) (*sql.DB, error) {
-	db, err := sql.Open("sqlite3", "file:"+dbfile+"?mode=ro&_busy_timeout=100")
+	dsn := "file:" + dbfile + "?mode=rw&_busy_timeout=100"
+	if WALObserver {
+		dsn += "&_journal=WAL"
+	}
+	db, err := sql.Open("sqlite3", dsn)
 	if err != nil {
 		return nil, err
 	}
@@ -120,7 +130,11 @@ func TakeDump(db *sql.DB, withText bool) (*Dump, error) {
 		rows.Close()
 		d.Rows[t.name] = n
 		d.Tables[t.name] = hex.EncodeToString(h.Sum(nil)[:12])
-		total.Write([]byte(t.name + ":" + d.Tables[t.name] + "\n"))
+		if t.name != "pn_sync_version" {
+			// administrative table (which build synced which height; start-up
+			// back-fill rows): hashed for the checks that care, not part of the ledger
+			total.Write([]byte(t.name + ":" + d.Tables[t.name] + "\n"))
+		}
 	}
 	d.Total = hex.EncodeToString(total.Sum(nil)[:16])
 	var data []byte
@@ -134,7 +148,7 @@ func TakeDump(db *sql.DB, withText bool) (*Dump, error) {
 func DiffTables(a, b *Dump) []string {
 	var out []string
 	for _, t := range dumpTables {
-		if a.Tables[t.name] != b.Tables[t.name] {
+		if t.name != "pn_sync_version" && a.Tables[t.name] != b.Tables[t.name] {
 			out = append(out, t.name)
 		}
 	}
